@@ -3,10 +3,10 @@ CONSTANTS
   K = 2
   Reqs = {1, 2, 3}
   MaxCalls = 7
-  Counts = {1, 2, 4}
+  Counts = {1, 2}
   Depth = 7
   DrainedOK = TRUE
-  OwedVals = {0, 3}
+  OwedVals = {3}
 SPECIFICATION RSpec
 INVARIANT Emit
 INVARIANT WInv
